@@ -268,11 +268,15 @@ def finish(ctx, level_note_assumptions=None):
     for sig, vs in sorted(bysig.items()):
         v = vs[0]
         if v['case'] and v['step'] in ctx.steps and not v.get('noreplay'):
+            def norm(x):
+                # memory corruption may end a process with different signals from run to run: any crash of the
+                # same case in the same call counts as the same failure when replaying
+                return re.sub(r'\.(segv|abort(@[^.]*(\.(cpp|hpp):\d+)?)?|sigbus|sigfpe|timeout|signal\d+|exit\d+)\.', '.CRASH.', x)
             rs = ctx.replay_case(v['step'], v['case'], v.get('args', ()))
-            if sig not in rs:
+            if sig not in rs and norm(sig) not in [norm(x) for x in rs]:
                 # second attempt before declaring nondeterminism
                 rs = ctx.replay_case(v['step'], v['case'], v.get('args', ()))
-            if sig not in rs:
+            if sig not in rs and norm(sig) not in [norm(x) for x in rs]:
                 sys.stderr.write('FRAMEWORK ERROR: violation %s case [%s] did not reproduce on replay (got %s)\n' % (sig, v['case'], rs))
                 write_evidence(ctx, violations=len(bysig), extra={'framework_error': 'non-reproducible ' + sig})
                 return 2
